@@ -45,6 +45,12 @@ func GenC04() *rapid.Generator[C04Case] {
 		case 3:
 			c.F2 = c.F1 + 1e-12
 		}
+		if c.F1 != c.F2 && rapid.Bool().Draw(t, "other way round") {
+			c.F1, c.F2 = c.F2, c.F1 // ... whichever of the two it is
+		}
+		if rapid.IntRange(0, 7).Draw(t, "tiny fitness scale") == 0 {
+			c.F1, c.F2 = c.F1*1e-13, c.F2*1e-13
+		}
 		return c
 	})
 }
@@ -239,8 +245,13 @@ func checkCrossoverChild(P1, P2, ch GenomeSpec, method string, f1, f2 float64, r
 		return fmt.Errorf("%s: child has %d traits, parents have %d", method, len(ch.Traits), len(P1.Traits))
 	}
 	for i, tr := range ch.Traits {
+		if len(tr.Params) != len(P1.Traits[i].Params) {
+			return fmt.Errorf("%s: trait %d of the child has %d parameters, the parents' traits have %d", method, i, len(tr.Params), len(P1.Traits[i].Params))
+		}
 		for j := range tr.Params {
-			if mean := (P1.Traits[i].Params[j] + P2.Traits[i].Params[j]) / 2; tr.Params[j] != mean {
+			a, b := P1.Traits[i].Params[j], P2.Traits[i].Params[j]
+			// the mean, computed either way (the sum of two values near the largest float64 overflows, the sum of the halves does not)
+			if mean := (a + b) / 2; tr.Params[j] != mean && tr.Params[j] != a/2+b/2 {
 				return fmt.Errorf("%s: trait %d param %d is %v, the mean of the parents' is %v", method, i, j, tr.Params[j], mean)
 			}
 		}
